@@ -48,6 +48,15 @@ class Report:
         if len(self.violations) < 300:
             self.violations.append({"key": key, "detail": detail})
     def emit(self):
+        def clean(x):
+            # lone surrogates (from undecodable bytes) are not valid in JSON for every reader
+            if isinstance(x, str): return x.encode("utf-8", "backslashreplace").decode("utf-8")
+            if isinstance(x, bytes): return x.decode("utf-8", "backslashreplace")
+            if isinstance(x, list): return [clean(y) for y in x]
+            if isinstance(x, tuple): return [clean(y) for y in x]
+            if isinstance(x, dict): return {clean(k) if isinstance(k, (str, bytes)) else k: clean(v) for k, v in x.items()}
+            return x
+        self.cases, self.violations, self.families, self.samples = clean(self.cases), clean(self.violations), clean(self.families), clean(self.samples)
         sys.stdout.write(json.dumps({"cases": self.cases, "violations": self.violations, "families": self.families, "samples": self.samples[:12],
                                      "bounds": self.bounds, "capped": self.capped, "transitions": self.transitions}))
 
